@@ -328,13 +328,14 @@ theorem path_missing_prefix_is_parse_error (prim : PT → Str → PR) (name : St
   simp [pathRaw_some raw hraw, cutPrefix, hp]
 
 /-- query form, explode=true: every pair travels as its own query entry -/
-theorem query_object_explode_roundtrip (fl : Flavour) (name : Str) (req : Bool) (kvs : List (Str × Str)) (hne : kvs ≠ [])
+theorem query_object_explode_roundtrip (fl : Flavour) (hfl : fl.absentAware = false) (name : Str) (req : Bool) (kvs : List (Str × Str)) (hne : kvs ≠ [])
     (sprops : List (Str × PS)) (rq : List Str) (addl : Option PS) :
     ∃ r, encode ⟨.query, .form, true⟩ name (.obj kvs) = some r ∧
       decodeStyled fl ⟨.query, .form, true⟩ name req r (.leaf (.obj sprops rq addl)) =
         match makeObject fl.prim fl.addlShadow kvs sprops addl with
         | none => ⟨.nilObj, false, some .parse⟩
         | some res => ⟨.obj res, queryObjFound sprops kvs res, none⟩ := by
+  have hfa : fl.absentAware = false := hfl
   have hfv : ∀ l : List (Str × Str), firstVals (l.map (fun kv => (kv.1, [kv.2]))) = l := by
     intro l
     induction l with
@@ -345,7 +346,7 @@ theorem query_object_explode_roundtrip (fl : Flavour) (name : Str) (req : Bool) 
     | nil => contradiction
     | cons kv rest => rfl
   refine ⟨{ query := kvs.map (fun kv => (kv.1, [kv.2])) }, by simp [encode, encQuery], ?_⟩
-  simp [decodeStyled, earlyAbsent, hq, decodeValue, decodeLeaf, queryObj, hfv kvs]
+  simp [decodeStyled, earlyAbsent, hq, decodeValue, decodeLeaf, queryObj, hfv kvs, hfa]
   rfl
 
 /-- the three path styles, explode=false: "a,1,b,x" behind the style prefix -/
@@ -411,6 +412,129 @@ theorem header_object_explode_roundtrip (fl : Flavour) (name : Str) (req : Bool)
   refine ⟨{ header := some [joinL [','] (eqKV kvs)] }, by simp [encode, encHeader], ?_⟩
   simp only [decodeStyled, earlyAbsent, decodeValue, decodeLeaf, headerObj, headerRaw]
   simpa using objOut_eq_roundtrip fl.prim fl.addlShadow ',' (by decide) kvs hne hfree sprops addl
+
+/-- header explode=false, cookie (where the decoder does not refuse the cell) and query form explode=false: "a,1,b,x" -/
+theorem header_object_roundtrip (fl : Flavour) (name : Str) (req : Bool)
+    (sprops : List (Str × PS)) (rq : List Str) (addl : Option PS)
+    (kvs : List (Str × Str)) (henc : encodable ⟨.header, .simple, false⟩ name (.obj kvs) = true) :
+    ∃ r, encode ⟨.header, .simple, false⟩ name (.obj kvs) = some r ∧
+      decodeStyled fl ⟨.header, .simple, false⟩ name req r (.leaf (.obj sprops rq addl)) =
+        match makeObject fl.prim fl.addlShadow kvs sprops addl with
+        | none => ⟨.nilObj, true, some .parse⟩
+        | some res => ⟨.obj res, true, none⟩ := by
+  have hne : kvs ≠ [] := by
+    intro e; subst e; simp [encodable, encodableObj] at henc
+  have hfree : ∀ kv ∈ kvs, ',' ∉ kv.1 ∧ ',' ∉ kv.2 := by
+    intro kv hkv
+    simp [encodable, encodableObj, objDelims, List.all_eq_true, freeOf] at henc
+    have := henc.2 kv.1 kv.2 hkv
+    exact ⟨this.1.1.1, this.1.1.2⟩
+  refine ⟨{ header := some [joinL [','] (flatKV kvs)] }, by simp [encode, encHeader], ?_⟩
+  simp only [decodeStyled, earlyAbsent, decodeValue, decodeLeaf, headerObj, headerRaw]
+  simpa using objOut_flat_roundtrip fl.prim fl.addlShadow kvs hne hfree sprops addl
+
+theorem cookie_object_roundtrip_partial (fl : Flavour) (name : Str) (ex req : Bool) (hck : (fl.cookieExplodeBad && ex) = false)
+    (sprops : List (Str × PS)) (rq : List Str) (addl : Option PS)
+    (kvs : List (Str × Str)) (henc : encodable ⟨.cookie, .form, ex⟩ name (.obj kvs) = true) :
+    ∃ r, encode ⟨.cookie, .form, ex⟩ name (.obj kvs) = some r ∧
+      decodeStyled fl ⟨.cookie, .form, ex⟩ name req r (.leaf (.obj sprops rq addl)) =
+        match makeObject fl.prim fl.addlShadow kvs sprops addl with
+        | none => ⟨.nilObj, true, some .parse⟩
+        | some res => ⟨.obj res, true, none⟩ := by
+  have hne : kvs ≠ [] := by
+    intro e; subst e; simp [encodable, encodableObj] at henc
+  have hfree : ∀ kv ∈ kvs, ',' ∉ kv.1 ∧ ',' ∉ kv.2 := by
+    intro kv hkv
+    simp [encodable, encodableObj, objDelims, List.all_eq_true, freeOf] at henc
+    have := henc.2 kv.1 kv.2 hkv
+    exact ⟨this.1.1.1, this.1.1.2⟩
+  refine ⟨{ cookie := some (joinL [','] (flatKV kvs)) }, by simp [encode, encCookie], ?_⟩
+  simp only [decodeStyled, earlyAbsent, decodeValue, decodeLeaf, cookieObj, hck]
+  simpa using objOut_flat_roundtrip fl.prim fl.addlShadow kvs hne hfree sprops addl
+
+/-- the three path styles, explode=true: "a=1,b=x", ".a=1.b=x", ";a=1;b=x" -/
+theorem path_object_explode_roundtrip (fl : Flavour) (name : Str) (st : Sty) (req : Bool)
+    (hst : st = .simple ∨ st = .label ∨ st = .matrix) (sprops : List (Str × PS)) (rq : List Str) (addl : Option PS)
+    (kvs : List (Str × Str)) (henc : encodable ⟨.path, st, true⟩ name (.obj kvs) = true) :
+    ∃ r, encode ⟨.path, st, true⟩ name (.obj kvs) = some r ∧
+      decodeStyled fl ⟨.path, st, true⟩ name req r (.leaf (.obj sprops rq addl)) =
+        match makeObject fl.prim fl.addlShadow kvs sprops addl with
+        | none => ⟨.nilObj, true, some .parse⟩
+        | some res => ⟨.obj res, true, none⟩ := by
+  have hne : kvs ≠ [] := by
+    intro e; subst e; simp [encodable, encodableObj] at henc
+  have hj : ∀ p0 : Char, joinL [p0] (eqKV kvs) ≠ [] := by
+    intro p0
+    cases kvs with
+    | nil => contradiction
+    | cons kv rest =>
+      cases rest with
+      | nil => simp [eqKV, joinL]
+      | cons kv2 r2 => simp [eqKV, joinL]
+  rcases hst with rfl | rfl | rfl
+  · have hfree : ∀ kv ∈ kvs, ',' ∉ kv.1 ∧ ',' ∉ kv.2 ∧ '=' ∉ kv.1 ∧ '=' ∉ kv.2 := by
+      intro kv hkv
+      simp [encodable, encodableObj, objDelims, pathObjFmt, List.all_eq_true, freeOf] at henc
+      have := henc.2 kv.1 kv.2 hkv
+      exact ⟨this.1.1.1, this.1.1.2, this.1.2, this.2⟩
+    refine ⟨{ path := some (joinL [','] (eqKV kvs)) }, by simp [encode, encPath], ?_⟩
+    simp only [decodeStyled, earlyAbsent, decodeValue, decodeLeaf, pathObj, pathObjFmt, pathRaw_some _ (hj ','), cutPrefix,
+      List.isPrefixOf, List.length_nil, List.drop_zero]
+    simpa using objOut_eq_roundtrip fl.prim fl.addlShadow ',' (by decide) kvs hne hfree sprops addl
+  · have hfree : ∀ kv ∈ kvs, '.' ∉ kv.1 ∧ '.' ∉ kv.2 ∧ '=' ∉ kv.1 ∧ '=' ∉ kv.2 := by
+      intro kv hkv
+      simp [encodable, encodableObj, objDelims, pathObjFmt, List.all_eq_true, freeOf] at henc
+      have := henc.2 kv.1 kv.2 hkv
+      exact ⟨this.1.1.1, this.1.1.2, this.1.2, this.2⟩
+    have hraw : ['.'] ++ joinL ['.'] (eqKV kvs) ≠ [] := by simp
+    refine ⟨{ path := some (['.'] ++ joinL ['.'] (eqKV kvs)) }, by simp [encode, encPath], ?_⟩
+    simp only [decodeStyled, earlyAbsent, decodeValue, decodeLeaf, pathObj, pathObjFmt, pathRaw_some _ hraw, cutPrefix_append]
+    simpa using objOut_eq_roundtrip fl.prim fl.addlShadow '.' (by decide) kvs hne hfree sprops addl
+  · have hfree : ∀ kv ∈ kvs, ';' ∉ kv.1 ∧ ';' ∉ kv.2 ∧ '=' ∉ kv.1 ∧ '=' ∉ kv.2 := by
+      intro kv hkv
+      simp [encodable, encodableObj, objDelims, pathObjFmt, List.all_eq_true, freeOf] at henc
+      have := henc.2 kv.1 kv.2 hkv
+      exact ⟨this.1.1.1, this.1.1.2, this.1.2, this.2⟩
+    have hraw : [';'] ++ joinL [';'] (eqKV kvs) ≠ [] := by simp
+    refine ⟨{ path := some ([';'] ++ joinL [';'] (eqKV kvs)) }, by simp [encode, encPath], ?_⟩
+    simp only [decodeStyled, earlyAbsent, decodeValue, decodeLeaf, pathObj, pathObjFmt, pathRaw_some _ hraw, cutPrefix_append]
+    simpa using objOut_eq_roundtrip fl.prim fl.addlShadow ';' (by decide) kvs hne hfree sprops addl
+
+/-- end to end, no side condition left: every non-empty list of int64 values, written in decimal and joined with
+commas, is decoded from a header back to exactly that list by the code's decoder -/
+theorem header_int_array_end_to_end (name : Str) (ex req : Bool) (mn mx : Option Nat) (en : List (List EV))
+    (is : List Int) (hne : is ≠ []) (hr : ∀ i ∈ is, -(2 ^ 63 : Int) ≤ i ∧ i < (2 ^ 63 : Int)) :
+    decodeStyled impl ⟨.header, .simple, ex⟩ name req { header := some [joinL [','] (is.map showInt)] }
+      (.leaf (.arr { t := .integer } mn mx en)) = ⟨.arr (is.map PV.int), true, none⟩ := by
+  have hreads : ∀ l : List Int, (∀ i ∈ l, -(2 ^ 63 : Int) ≤ i ∧ i < (2 ^ 63 : Int)) →
+      Reads parsePrim .integer (l.map showInt) (l.map PV.int) := by
+    intro l
+    induction l with
+    | nil => intro _; exact .nil
+    | cons i rest ih =>
+      intro h
+      exact .cons (parsePrim_integer_showInt i (h i (by simp)).1 (h i (by simp)).2) (ih (fun j hj => h j (by simp [hj])))
+  have henc : encodable ⟨.header, .simple, ex⟩ name (.arr (is.map showInt)) = true := by
+    simp only [encodable, encodableArr, arrDelim, Bool.and_eq_true, List.all_eq_true, Bool.not_eq_true',
+      List.isEmpty_eq_false_iff]
+    refine ⟨⟨by simpa using hne, ?_⟩, ?_⟩
+    · intro x hx
+      obtain ⟨i, _, rfl⟩ := List.mem_map.mp hx
+      simpa using showInt_ne_nil i
+    · intro x hx
+      obtain ⟨i, _, rfl⟩ := List.mem_map.mp hx
+      exact (freeOf_iff ',' _).mpr (showInt_free i ',' (by decide) comma_not_digit)
+  obtain ⟨r, hr1, hr2⟩ := header_array_roundtrip impl name ex req { t := .integer } mn mx en (is.map showInt) henc
+  have : r = { header := some [joinL [','] (is.map showInt)] } := by
+    simp [encode, encHeader] at hr1; exact hr1.symm
+  subst this
+  rw [hr2]
+  have hv := parseArr_vals parsePrim .integer _ _ (hreads is hr)
+  simp only [impl] at hv ⊢
+  rw [hv]
+  cases is with
+  | nil => contradiction
+  | cons i rest => simp [arrOut]
 
 /-! ### where the code and the specification part (exclusion classes), and that they part nowhere else -/
 
@@ -486,6 +610,29 @@ theorem addl_shadow_witness :
     let r : Req := { header := some ["n,1.5".toList] }
     AddlShadow p = true ∧ validateParameter p r = .parse ∧ validateSpec p r = .accept := by
   decide
+
+/-- QueryObjAbsent: `?zz=1`, optional exploded object `{required: [a], properties: {a: integer}}`: the parameter is
+absent, yet the code validates the empty object it built from the unrelated query parameter and rejects -/
+theorem query_obj_absent_witness :
+    let p : Param := ⟨⟨.query, .form, true⟩, ['p'], false, false, .leaf (.obj [(['a'], { t := .integer })] [['a']] none)⟩
+    let r : Req := { query := [("zz".toList, [['1']])] }
+    QueryObjAbsent p r = true ∧ validateParameter p r = .schema ∧ validateSpec p r = .accept ∧
+    (decodeStyled impl p.cell p.name false r p.schema).val = .obj [] := by
+  decide
+
+/-- outside the class (a declared property is present, or the object has an additionalProperties schema, or the
+cell is not query/form/explode) the two flavours of `queryObj` coincide -/
+theorem queryObj_absent_partial (prim : PT → Str → PR) (shadow : Bool) (name : Str) (st : Sty) (ex : Bool) (r : Req)
+    (sprops : List (Str × PS)) (addl : Option PS)
+    (h : ex = false ∨ addl.isSome = true ∨ (firstVals r.query).any (fun kv => hasKey kv.1 sprops) = true) :
+    queryObj prim shadow true name st ex r sprops addl = queryObj prim shadow false name st ex r sprops addl := by
+  unfold queryObj
+  rcases h with h | h | h
+  · simp [h]
+  · cases addl with
+    | none => simp at h
+    | some a => simp
+  · simp [h]
 
 /-! ### non-vacuity: the hypotheses of the round-trip theorems are satisfiable in every location -/
 
